@@ -196,8 +196,9 @@ class Gen:
 			return leaf
 		leaf = [(w * 0.4, f) for w, f in leaf]
 		# two expressions of a container-of-optional type may be inferred differently (list<int>, list<None>, list<Union<int, None>>);
-		# their ternary is a Union of containers, on which tranp resolves no operator or method: kept out of the generated domain
-		tern_w = 0.0 if has_opt(t) else 0.7
+		# their ternary is a Union of containers, on which tranp resolves no operator or method (known finding
+		# ternary-union-of-containers): generated at a low rate
+		tern_w = (0.06 if self.mode != 'pytype' else 0.7) if has_opt(t) else 0.7
 		generic = [
 			(0.5, lambda: self.group(t, depth)),
 			(tern_w, lambda: self.ternary(t, depth)),
@@ -281,6 +282,20 @@ class Gen:
 			return self.expr(u, min(d1, 1)).text
 
 		k = t[0]
+		rare = (not pure) and self.rng.random() < 0.04   # forms typed differently from CPython (listed as known findings): low rate
+		if rare and k == 'int':
+			return Src(f'abs({self.expr(BOOL, d1).text})', P_ATOM, True)                                   # abs-of-bool
+		if rare and k == 'float':
+			a, b = self.expr(INT, d1).text, self.expr(FLOAT, d1).text
+			return Src(f'{self.rng.choice(["min", "max"])}({a}, {b})', P_ATOM, True)                          # min-max-mixed-numeric
+		if rare and k == 'list' and t[1][0] == 'tuple' and len(t[1]) == 3:
+			dct = self.receiver(('dict', t[1][1], t[1][2]), 0)
+			if dct is not None:
+				return Src(f'list({dct.text}.items())', P_ATOM, True)                                         # list-of-dict-items
+		if rare and k in ('int', 'str') and self.in_comp == 0:
+			x, y = self.expr(t, d1), self.expr(t, d1)
+			op, lv = self.rng.choice([('and', P_AND), ('or', P_OR)])
+			return Src(f'({x.at(lv + 1)} {op} {y.at(lv + 1)})', P_ATOM)                                       # boolop-nonbool-operands
 		if k == 'int':
 			add(STR, lambda r: f'{r}.find({arg(STR)})')
 			add(STR, lambda r: f'{r}.count({self.nonempty_str().text})')
